@@ -229,6 +229,54 @@ def recenter_is_a_translation(S, k):
     S.ensure("recenter.no_two_rectangles_share_a_point", len({id(r.center) for r in m.rectangles}) == k)
 
 
+@contract(P, kind="enum", functions=["frame.netlist.module.Module.recenter_rectangles"],
+          scope="bounded: 400 hard modules of 2-3 rectangles whose coordinates have seven and more decimals (thirds, sevenths, micrometres in metres), moved to random centres")
+def recenter_is_rigid_on_awkward_numbers(replay=None):
+    """added after the open seed r8-C10-2 (each rectangle's new centre rounded to six decimals): the double-precision counterpart of
+    recenter_is_a_translation on numbers that are not multiples of 1e-6"""
+    import random
+    from frame.netlist.module import Module
+    rng = random.Random(1010)
+    failures, evals = [], 0
+    for it in range(400):
+        unit = rng.choice([1.0, 1.0, 1e-6, 1e3])
+        base = [rng.choice([1 / 3, 2 / 7, 0.8333333, 1.2345678, 0.1, 2.5]) * unit for _ in range(8)]
+        rects = [(10 * unit, 10 * unit, 4 * unit, 2 * unit), (10 * unit + base[0] - 2 * unit + 0.5 * unit, 11 * unit + base[1] / 2, 1 * unit, base[1])]
+        if rng.random() < 0.5:
+            rects.append((12 * unit + base[2] / 2, 10 * unit + base[3] / 4 - 0.5 * unit, base[2], 0.5 * unit))
+        Rectangle.undefine_epsilon()
+        Rectangle.set_epsilon(1e-9 * unit)
+        m = Module("H", hard=True)
+        for (x, y, w, h) in rects:
+            m.add_rectangle(Rectangle(center=Point(x, y), shape=Shape(w, h)))
+        m.setup()
+        m.calculate_center_from_rectangles()
+        before = [(r.center.x, r.center.y, r.shape.w, r.shape.h) for r in m.rectangles]
+        m.center = Point((rng.uniform(3, 30) + 1 / 3) * unit, (rng.uniform(3, 30) + 1 / 7) * unit)
+        evals += 1
+        try:
+            m.recenter_rectangles()
+        except Exception as e:  # noqa
+            failures.append(dict(clause="recenter_float.no_raise", observed=f"{type(e).__name__}: {e}", rects=rects))
+            continue
+        after = [(r.center.x, r.center.y, r.shape.w, r.shape.h) for r in m.rectangles]
+        tol = 1e-12 * 40 * unit
+        dx, dy = after[0][0] - before[0][0], after[0][1] - before[0][1]
+        if any(abs((a[0] - b[0]) - dx) > tol or abs((a[1] - b[1]) - dy) > tol or a[2:] != b[2:] for a, b in zip(after, before)):
+            failures.append(dict(clause="recenter_float.same_translation_for_every_rectangle_and_shapes_untouched", before=before, after=after, unit=unit))
+        tot = sum(w * h for (_, _, w, h) in after)
+        cx, cy = sum(w * h * x for (x, _, w, h) in after) / tot, sum(w * h * y for (_, y, w, h) in after) / tot
+        if abs(cx - m.center.x) > 1e-9 * 40 * unit or abs(cy - m.center.y) > 1e-9 * 40 * unit:
+            failures.append(dict(clause="recenter_float.centroid_is_the_module_centre", centre=[m.center.x, m.center.y], centroid=[cx, cy], unit=unit))
+        if len(failures) >= 4:
+            break
+    Rectangle.undefine_epsilon()
+    return dict(evaluations=evals, distinct_nontrivial=evals, exhaustive=False, failures=failures[:4],
+                rule="a trunk with one or two branches at offsets that are thirds, sevenths or seven-decimal numbers, in units of 1, 1e-6 and 1e3; after "
+                     "recenter_rectangles every rectangle moved by the same vector (1e-12 relative), shapes bit-identical, centroid at the new centre",
+                samples=[dict(units=[1.0, 1e-6, 1e3])], bound="400 modules")
+
+
 @contract(P, functions=[G + "optimize_allocation", G + "get_a", G + "get_neighbouring_cells"], budget_s=600, exact_feas_ms=50,
           scope="model construction on a concrete 2-cell design (the model is captured, nothing is solved)")
 def model_pins_fixed_modules_and_bounds_variables(S):
